@@ -15,8 +15,9 @@ by the driver on every call):
 * for PF the random draws (`particles`, `uniforms`) and the normalising constant of
   `MultivariateNormal.log_prob` (`lz`; it cancels in the softmax — theorem `softmax_shift`).
 
-`memoV/memoM` are the identity (theorems `memoV_eq`, `memoM_eq`); they only force evaluation into an
-array so that the executable instance does not recompute closures.
+`memoV/memoM` followed by `.fn/.mfn` are the identity (`MemoV.fn_of`, `MemoM.mfn_of` in
+`Proofs/Lemmas/Filter.lean`); they only force evaluation into an array so that the executable instance
+does not recompute closures.
 -/
 namespace PP.Filter
 variable {α : Type} [Scalar α]
@@ -34,18 +35,29 @@ def fcount : {n : Nat} → (Fin n → Bool) → Nat
   | 0, _ => 0
   | _+1, p => (if p 0 then 1 else 0) + fcount (fun i => p i.succ)
 
-/-! ### evaluation forcing (identity functions) -/
+/-! ### evaluation forcing
 
-/-- read access to an array of known size (kept out of line so that `memoV v` is a closure over the
-*evaluated* array, not a recomputation per access) -/
-@[noinline] def arrGet {β : Type} {n : Nat} (a : Array β) (h : a.size = n) : Fin n → β :=
-  fun i => a[i.val]'(by omega)
+`memoV v` / `memoM A` evaluate a vector / matrix into an array *once*; `.fn` / `.mfn` read it back
+(`MemoV.fn_of`, `MemoM.mfn_of`: reading back gives the original function, so for the theorems these
+are identities). A plain function-valued `memo` would be eta-expanded by the compiler and recompute
+on every access. -/
 
-@[inline] def memoV {β : Type} {n : Nat} (v : Fin n → β) : Fin n → β :=
-  arrGet (Array.ofFn v) (by simp)
+structure MemoV (β : Type) (n : Nat) where
+  a : Array β
+  h : a.size = n
 
-@[inline] def memoM {β : Type} {m n : Nat} (A : Fin m → Fin n → β) : Fin m → Fin n → β :=
+def memoV {β : Type} {n : Nat} (v : Fin n → β) : MemoV β n := ⟨Array.ofFn v, by simp⟩
+
+def MemoV.fn {β : Type} {n : Nat} (s : MemoV β n) : Fin n → β :=
+  fun i => s.a[i.val]'(by have := s.h; omega)
+
+abbrev MemoM (β : Type) (m n : Nat) := MemoV (MemoV β n) m
+
+def memoM {β : Type} {m n : Nat} (A : Fin m → Fin n → β) : MemoM β m n :=
   memoV (fun i => memoV (A i))
+
+def MemoV.mfn {β : Type} {m n : Nat} (s : MemoM β m n) : Fin m → Fin n → β :=
+  fun i j => (s.fn i).fn j
 
 /-! ### dense algebra -/
 
@@ -76,6 +88,14 @@ structure Sys (α : Type) (n m p : Nat) where
   jf : Vec α n → Vec α m → Mat α n n
   jg : Vec α n → Vec α m → Mat α p n
 
+/-- the affine system `x' = A x + B u + c1`, `y = C x + D u + c2` (its Jacobians are `A`, `C` everywhere) -/
+def affSys {n m p : Nat} (A : Mat α n n) (B : Mat α n m) (C : Mat α p n) (D : Mat α p m)
+    (c1 : Vec α n) (c2 : Vec α p) : Sys α n m p where
+  f x u := vadd (vadd (mulVec A x) (mulVec B u)) c1
+  g x u := vadd (vadd (mulVec C x) (mulVec D u)) c2
+  jf _ _ := A
+  jg _ _ := C
+
 /-- everything one call `filter(x, y, u, P, Q, R)` receives besides the prior -/
 structure Step (α : Type) (n m p : Nat) where
   sys : Sys α n m p
@@ -93,13 +113,14 @@ def ekf {n m p : Nat} (pinv : Mat α p p → Mat α p p) (s : Step α n m p) (pr
   let A := memoM (s.sys.jf pr.x s.u)
   let C := memoM (s.sys.jg pr.x s.u)
   let xm := memoV (s.sys.f pr.x s.u)
-  let Pm := memoM (madd (mmul (mmul A pr.P) (transpose A)) s.Q)
-  let S := memoM (madd (mmul (mmul C Pm) (transpose C)) s.R)
-  let K := memoM (mmul (mmul Pm (transpose C)) (pinv S))
-  let e := memoV (vsub s.y (s.sys.g xm s.u))
-  let xp := memoV (vadd xm (mulVec K e))
-  let Pp := memoM (mmul (msub eye (mmul K C)) Pm)
-  ⟨xp, Pp⟩
+  let Pm := memoM (madd (mmul (mmul A.mfn pr.P) (transpose A.mfn)) s.Q)
+  let S := memoM (madd (mmul (mmul C.mfn Pm.mfn) (transpose C.mfn)) s.R)
+  let Si := memoM (pinv S.mfn)
+  let K := memoM (mmul (mmul Pm.mfn (transpose C.mfn)) Si.mfn)
+  let e := memoV (vsub s.y (s.sys.g xm.fn s.u))
+  let xp := memoV (vadd xm.fn (mulVec K.mfn e.fn))
+  let Pp := memoM (mmul (msub eye (mmul K.mfn C.mfn)) Pm.mfn)
+  ⟨xp.fn, Pp.mfn⟩
 
 /-- a run: the posterior of one call is the prior of the next -/
 def runEKF {n m p : Nat} (pinv : Mat α p p → Mat α p p) (steps : List (Step α n m p)) (pr : Post α n) :
@@ -115,7 +136,12 @@ structure Sigma (α : Type) (n q : Nat) where
   plus : Fin n → Vec α q
   minus : Fin n → Vec α q
 
-def Sigma.memo {n q} (s : Sigma α n q) : Sigma α n q := ⟨memoV s.c, memoM s.plus, memoM s.minus⟩
+/-- force all `2n+1` vectors (identity: `Sigma.memo_eq`) -/
+def Sigma.memo {n q} (s : Sigma α n q) : Sigma α n q :=
+  let c := memoV s.c
+  let pl := memoM s.plus
+  let mi := memoM s.minus
+  ⟨c.fn, pl.mfn, mi.mfn⟩
 
 /-- centre weight `k/(n+k)` and the common weight `1/(2(n+k))` of the other `2n` points -/
 def w0 (n : Nat) (kk : α) : α := kk / (k n + kk)
@@ -124,7 +150,7 @@ def wr (n : Nat) (kk : α) : α := k 1 / (k 2 * (k n + kk))
 /-- `sigma_weight_points`: `xr = msqrt((n+k) P).mT`, row `i` of `xr` is column `i` of the factor. -/
 def sigmaPoints {n} (msqrt : Mat α n n → Mat α n n) (x : Vec α n) (P : Mat α n n) (kk : α) : Sigma α n n :=
   let L := memoM (msqrt (msmul (k n + kk) P))
-  Sigma.memo ⟨x, fun i => vadd x (fun a => L a i), fun i => vsub x (fun a => L a i)⟩
+  Sigma.memo ⟨x, fun i => vadd x (fun a => L.mfn a i), fun i => vsub x (fun a => L.mfn a i)⟩
 
 /-- push every sigma point through a function -/
 def Sigma.map {n q r} (F : Vec α q → Vec α r) (s : Sigma α n q) : Sigma α n r :=
@@ -150,19 +176,20 @@ def ukf {n m p : Nat} (pinv : Mat α p p → Mat α p p) (msqrt : Mat α n n →
   let b := wr n kk
   let xs := (sigmaPoints msqrt pr.x pr.P kk).map (fun pt => s.sys.f pt s.u)
   let xe := memoV (xs.wsum a b)
-  let ex := xs.dev xe
+  let ex := xs.dev xe.fn
   let Pm := memoM (madd s.Q (ex.cov a b ex))
-  let s2 := sigmaPoints msqrt xe Pm kk
-  let ex2 := s2.dev xe
+  let s2 := sigmaPoints msqrt xe.fn Pm.mfn kk
+  let ex2 := s2.dev xe.fn
   let ys := s2.map (fun pt => s.sys.g pt s.u)
   let ye := memoV (ys.wsum a b)
-  let ey := ys.dev ye
+  let ey := ys.dev ye.fn
   let Py := memoM (madd s.R (ey.cov a b ey))
   let Pxy := memoM (ex2.cov a b ey)
-  let K := memoM (mmul Pxy (pinv Py))
-  let x := memoV (vadd xe (mulVec K (vsub s.y ye)))
-  let P := memoM (msub Pm (mmul (mmul K Py) (transpose K)))
-  ⟨x, P⟩
+  let Pyi := memoM (pinv Py.mfn)
+  let K := memoM (mmul Pxy.mfn Pyi.mfn)
+  let x := memoV (vadd xe.fn (mulVec K.mfn (vsub s.y ye.fn)))
+  let P := memoM (msub Pm.mfn (mmul (mmul K.mfn Py.mfn) (transpose K.mfn)))
+  ⟨x.fn, P.mfn⟩
 
 def runUKF {n m p : Nat} (pinv : Mat α p p → Mat α p p) (msqrt : Mat α n n → Mat α n n) (kk : α)
     (steps : List (Step α n m p)) (pr : Post α n) : Post α n :=
@@ -188,12 +215,12 @@ def vmax : {N : Nat} → Vec α N → α
   | 0, _ => k 0
   | _+1, l => fmax (fun i => l i.succ) (l 0)
 
-/-- `F.softmax(l, dim=-1)` -/
-def softmax {N} (l : Vec α N) : Vec α N :=
+/-- `F.softmax(l, dim=-1)`: `exp(l_i − max l) / Σ_j exp(l_j − max l)` -/
+def softmax {N} (l : Vec α N) : MemoV α N :=
   let c := vmax l
   let e := memoV (fun i => Scalar.exp (l i - c))
-  let z := fsum e
-  memoV (fun i => e i / z)
+  let z := fsum e.fn
+  memoV (fun i => e.fn i / z)
 
 /-- `torch.cumsum(q, dim=-1)` -/
 def cumsum {N} (w : Vec α N) : Vec α N :=
@@ -205,29 +232,33 @@ def searchsorted {N} (cs : Vec α N) (r : α) : Nat := fcount (fun i => Scalar.l
 
 /-- the importance weights of the propagated particles -/
 def pfWeights {n m p N : Nat} (Rinv : Mat α p p) (lz : α) (s : Step α n m p) (xp : Fin N → Vec α n) :
-    Vec α N :=
-  softmax (memoV (fun i => logLik Rinv lz s.y (s.sys.g (xp i) s.u)))
+    MemoV α N :=
+  let l := memoV (fun i => logLik Rinv lz s.y (s.sys.g (xp i) s.u))
+  softmax l.fn
 
-/-- indices chosen by `resample_particles`: `searchsorted(cumsum q, r).clamp_(max = N − 1)`
-(the clamp only matters when rounding leaves the last cumulative weight below a draw) -/
-def pfIndices {N} (w : Vec α N) (r : Vec α N) : Fin N → Nat :=
-  let cs := memoV (cumsum w)
-  memoV (fun j => min (searchsorted cs (r j)) (N - 1))
+/-- indices chosen by `resample_particles` from the cumulative weights `cs = cumsum q`:
+`searchsorted(cs, r).clamp_(max = N − 1)` (the clamp only matters when rounding leaves the last
+cumulative weight below a draw) -/
+def pfIndices {N} (cs : Vec α N) (r : Vec α N) : Fin N → Nat :=
+  fun j => min (searchsorted cs (r j)) (N - 1)
 
 /-- mean and covariance of the resampled set: `x = mean(xr)`, `P = Q + mean((xr−x)(xr−x)ᵀ)` -/
 def pfMoments {n N : Nat} (Q : Mat α n n) (xr : Fin N → Vec α n) : Post α n :=
   let x := memoV (fun a => fsum (fun j => xr j a) / k N)
-  let ex := memoM (fun j => vsub (xr j) x)
-  let P := memoM (fun a b => Q a b + fsum (fun j => ex j a * ex j b) / k N)
-  ⟨x, P⟩
+  let ex := memoM (fun j => vsub (xr j) x.fn)
+  let P := memoM (fun a b => Q a b + fsum (fun j => ex.mfn j a * ex.mfn j b) / k N)
+  ⟨x.fn, P.mfn⟩
 
 /-- One PF step. `xs, ye = model(xp, u)`: both the transition and the observation are evaluated at
 the *prior* particles. -/
 def pf {n m p N : Nat} (hN : 0 < N) (pinv : Mat α p p → Mat α p p) (lz : α) (s : Step α n m p)
     (xp : Fin N → Vec α n) (r : Vec α N) : Post α n :=
   let xs := memoM (fun i => s.sys.f (xp i) s.u)
-  let w := pfWeights (memoM (pinv s.R)) lz s xp
-  let idx := pfIndices w r
-  pfMoments s.Q (fun j => xs ⟨min (idx j) (N - 1), by omega⟩)
+  let Ri := memoM (pinv s.R)
+  let w := pfWeights Ri.mfn lz s xp
+  let cs := memoV (cumsum w.fn)
+  let idx := memoV (pfIndices cs.fn r)
+  let xr := memoM (fun j => xs.mfn ⟨min (idx.fn j) (N - 1), by omega⟩)
+  pfMoments s.Q xr.mfn
 
 end PP.Filter
